@@ -128,9 +128,25 @@ CLAIMED["C06"] = (
     "DESIGN.md section 5, C06",
 )
 
+CLAIMED["C20"] = (
+    "widgets-scroll",
+    "exploration",
+    "Seeded histories over Scrollable(Text | Pile of Text/Edit/Button/Divider | fixed widget), optionally under a ScrollBar: "
+    "scrolling keys, keys the wrapped widget consumes, wheel events, clicks, set_scrollpos(any int), content growth/shrinkage, "
+    "resizes and focus changes, with render as an explicit step so that several actions are batched before one render and resizes "
+    "land between an action and the render that resolves it. At every render the view must be rows p..p+h of the wrapped widget's "
+    "full rendering at the child width with 0 <= p <= max(0,total-h) and get_scrollpos() == p; the scrollbar is drawn iff the "
+    "content is taller than the view, its parts are contiguous, non-negative and sum to h, the thumb is at the top iff p == 0 and "
+    "never moves up when p does not decrease; a key handled by the wrapped widget does not also scroll. Sampling, not proof.",
+    "The slice model uses the wrapped widget's own full rendering (text layout is trusted); views narrower than the scrollbar are "
+    "skipped; ListBox under ScrollBar (relative protocol) is not generated yet.",
+    "deterministic simulation: seeded event/render batching and resize placement against a slice-of-full-render model",
+    "DESIGN.md section 5, C20",
+)
+
 PENDING = {
     p: "claimed in DESIGN.md; its simulation engine is not built yet in this tree, so no check is registered for it at this commit"
-    for p in ("C07", "C08", "C10", "C20")
+    for p in ("C07", "C08", "C10")
 }
 
 
